@@ -228,6 +228,9 @@ func (ex *Exec) heap(st *State, name, sort string) Term {
 	if strings.Contains(sort, "RV") {
 		ex.w.declRV(ex.d)
 	}
+	if strings.Contains(sort, "Fn") {
+		ex.d.add("sort:Fn", "(declare-sort Fn 0)\n(declare-fun fn_nil () Fn)")
+	}
 	st.hsorts[name] = sort
 	t := ex.heapConst(name, sort, st.epoch, st.hver[name])
 	st.heaps[name] = t
